@@ -1,5 +1,9 @@
 import Dnp3.Model.TimeSync
 import Dnp3.Model.Outstation
+import Dnp3.Model.MasterSession
+import Dnp3.Model.Pair
+import Dnp3.Proofs.C18Link
+import Dnp3.Proofs.C18Pair
 /-!
 # C18 — Time synchronisation sets the outstation's clock to the master's
 -/
@@ -128,5 +132,841 @@ theorem outstation_write_last_recorded_as_modelled (a : Dnp3.Acc) (h : Dnp3.ObjH
 
 example : nonLan 1000 30 7 50 40 7 = .ok (1127, 1127) := rfl
 example : lan 1000 25 300 = some (1300, 1325) := rfl
+
+
+/-! ## A. The master session model (the one in correspondence with the real `MasterTask`) does the
+`TimeSync` arithmetic
+
+All statements are for ALL accumulators `a : Master.Acc`, destinations, `uid : Option Nat`
+(`none` = the automatic task, `some u` = a user request whose promise is `u`) and responses.
+`syncOutcome` maps a `TimeSync.SyncError` to the `Outcome` reported; `tsSuccess` is the success
+bookkeeping (`complete a u .ok` resp. `doneAuto .timeSync`).
+
+NOTE on `master_delay_measure_as_modelled`: the hypothesis `hclk` (master clock ≤ 2^48−1, the
+quantifier range of the property) is needed: `TimeSync.tsAdd c p` tests `p > maxTs − c` with a
+truncated subtraction whereas the session model tests `c + p > maxTs`; for `c = maxTs + 1`,
+`interval = reported` the former accepts (`some c`) and the latter reports `tsOverflow`. -/
+section Link
+open Dnp3 Dnp3.Proofs.C18Link
+open Dnp3.Master (handleResponse tsStart tsReportError singleCountHeader NonReadTask TsState onFragment
+  parseResponse validateNonRead notifyLinkActivity doUnsolicited taskOnError badIin2 runSingle modAssoc)
+
+/-- A.1: the measuring step of the non-LAN procedure is `TimeSync.handleDelayMeasure` -/
+theorem master_delay_measure_as_modelled (a : Master.Acc) (dest : Nat) (uid : Option Nat) (t0 : Nat)
+    (r : Master.Resp) (h : ObjHdr) (hs : singleCountHeader r = some h)
+    (hg : h.group = 52) (hv : h.var = 2) (hc : h.a = 1)
+    (hclk : ∀ c, a.1.clock = some c → c ≤ maxTs) :
+    (match handleDelayMeasure (a.1.now - t0) (Master.u16le h.data) a.1.clock with
+     | .ok ts => handleResponse a dest (.timeSync uid (.measureDelay (some t0))) r =
+                   (a, .ok (some (.timeSync uid (.writeAbs (some ts)))))
+     | .error e => handleResponse a dest (.timeSync uid (.measureDelay (some t0))) r =
+                   (tsReportError a dest uid (syncOutcome e), .error .unexpectedHeaders)) := by
+  unfold handleDelayMeasure handleResponse
+  simp only [hs, hg, hv, hc, Option.getD_some, and_self, Bool.not_true, decide_true, Bool.false_eq_true, if_false]
+  by_cases h1 : a.1.now - t0 < Master.u16le h.data
+  · simp [h1, syncOutcome]
+  · simp only [h1, if_false]
+    cases hk : a.1.clock with
+    | none => simp [syncOutcome]
+    | some c =>
+      simp only [tsAdd_eq c _ (hclk c hk)]
+      by_cases h2 : c + (a.1.now - t0 - Master.u16le h.data) / 2 > 281474976710655
+      · simp [h2, syncOutcome]
+      · simp [h2]
+
+/-- A.2: anything but a single g52v2 count-of-one header fails the measuring step (an error result
+    never continues with a WRITE: see `master_onFragment_reaches_handleResponse`) -/
+theorem master_delay_measure_unexpected_objects (a : Master.Acc) (dest : Nat) (uid : Option Nat)
+    (t0 : Option Nat) (r : Master.Resp)
+    (h : singleCountHeader r = none ∨
+         ∃ h, singleCountHeader r = some h ∧ ¬ (h.group = 52 ∧ h.var = 2 ∧ h.a = 1)) :
+    handleResponse a dest (.timeSync uid (.measureDelay t0)) r =
+      (tsReportError a dest uid (.task .unexpectedHeaders), .error .unexpectedHeaders) := by
+  unfold handleResponse
+  rcases h with h | ⟨hd, h, hn⟩
+  · simp [h]
+  · simp [h, hn]
+
+theorem master_final_reply_as_modelled (a : Master.Acc) (dest : Nat) (uid : Option Nat) (st : TsState)
+    (r : Master.Resp) (hst : (∃ x, st = .writeAbs x) ∨ (∃ t, st = .writeLast t)) :
+    (match handleWriteReply r.raw.isEmpty (decide (r.iin1 &&& 0x10 ≠ 0)) with
+     | .ok () => handleResponse a dest (.timeSync uid st) r = (tsSuccess a dest uid, .ok none)
+     | .error e => handleResponse a dest (.timeSync uid st) r =
+                     (tsReportError a dest uid (syncOutcome e), .error .unexpectedHeaders)) := by
+  unfold handleWriteReply handleResponse tsSuccess
+  rcases hst with ⟨x, rfl⟩ | ⟨t, rfl⟩
+  · by_cases h1 : r.raw.isEmpty <;> by_cases h2 : r.iin1 &&& 0x10 = 0 <;> simp [h1, h2, syncOutcome] <;> cases uid <;> rfl
+  · by_cases h1 : r.raw.isEmpty <;> by_cases h2 : r.iin1 &&& 0x10 = 0 <;> simp [h1, h2, syncOutcome] <;> cases uid <;> rfl
+
+theorem master_final_reply_success_iff (a : Master.Acc) (dest : Nat) (uid : Option Nat) (st : TsState)
+    (r : Master.Resp) (hst : (∃ x, st = .writeAbs x) ∨ (∃ t, st = .writeLast t)) :
+    ((handleResponse a dest (.timeSync uid st) r).2 = .ok none ↔
+      handleWriteReply r.raw.isEmpty (decide (r.iin1 &&& 0x10 ≠ 0)) = .ok ()) ∧
+    ((handleResponse a dest (.timeSync uid st) r).2 = .ok none ∨
+     (handleResponse a dest (.timeSync uid st) r).2 = .error .unexpectedHeaders) := by
+  have h := master_final_reply_as_modelled a dest uid st r hst
+  cases hw : handleWriteReply r.raw.isEmpty (decide (r.iin1 &&& 0x10 ≠ 0)) with
+  | ok u => rw [hw] at h; simp at h; simp [h]
+  | error e => rw [hw] at h; simp at h; simp [h]
+
+theorem master_record_current_reply (a : Master.Acc) (dest : Nat) (uid : Option Nat) (t : Nat)
+    (r : Master.Resp) :
+    handleResponse a dest (.timeSync uid (.recordCurrent (some t))) r =
+      if r.raw.isEmpty then (a, .ok (some (.timeSync uid (.writeLast t))))
+      else (tsReportError a dest uid (.task .unexpectedHeaders), .error .unexpectedHeaders) := by
+  unfold handleResponse
+  by_cases h1 : r.raw.isEmpty <;> simp [h1]
+
+theorem u48_wire_round_trip (t : Nat) (ht : t ≤ maxTs) : Dnp3.u48le (Master.le48 t) = t :=
+  Dnp3.Proofs.C18Link.u48_wire_round_trip t ht
+
+theorem u48_wire_mod (t : Nat) : Dnp3.u48le (Master.le48 t) = t % 281474976710656 := by
+  unfold Dnp3.u48le Master.le48
+  simp only [List.getD_cons_zero, List.getD_cons_succ]
+  omega
+
+theorem master_write_request_octets (uid : Option Nat) (t : Nat) :
+    (NonReadTask.timeSync uid (.writeAbs (some t))).function = 2 ∧
+    (NonReadTask.timeSync uid (.writeAbs (some t))).objects = [0x32, 0x01, 0x07, 0x01] ++ Master.le48 t ∧
+    (NonReadTask.timeSync uid (.writeLast t)).function = 2 ∧
+    (NonReadTask.timeSync uid (.writeLast t)).objects = [0x32, 0x03, 0x07, 0x01] ++ Master.le48 t ∧
+    (NonReadTask.timeSync uid (.measureDelay (some t))).function = 23 ∧
+    (NonReadTask.timeSync uid (.measureDelay (some t))).objects = [] ∧
+    (NonReadTask.timeSync uid (.recordCurrent (some t))).function = 24 ∧
+    (NonReadTask.timeSync uid (.recordCurrent (some t))).objects = [] := by
+  simp [NonReadTask.function, NonReadTask.objects]
+
+theorem master_start_records_clock (c now : Nat) (clock x : Option Nat) :
+    tsStart (some c) now (.recordCurrent x) = some (.recordCurrent (some c)) ∧
+    (clock.isSome → tsStart clock now (.measureDelay x) = some (.measureDelay (some now))) ∧
+    tsStart (some c) now (.writeAbs none) = some (.writeAbs (some c)) ∧
+    tsStart none now (.recordCurrent x) = none ∧
+    tsStart none now (.measureDelay x) = none ∧
+    tsStart none now (.writeAbs none) = none := by
+  refine ⟨rfl, ?_, rfl, rfl, rfl, rfl⟩
+  intro h; simp [tsStart, h]
+
+theorem master_start_without_clock_fails (a : Master.Acc) (dest : Nat) (uid : Option Nat) (st : TsState)
+    (hc : a.1.clock = none)
+    (hst : (∃ x, st = .recordCurrent x) ∨ (∃ x, st = .measureDelay x) ∨ st = .writeAbs none) :
+    Master.startTask a dest (.nonRead (.timeSync uid st)) = (tsReportError a dest uid .tsNoSystemTime, none) := by
+  unfold Master.startTask
+  rcases hst with ⟨x, rfl⟩ | ⟨x, rfl⟩ | rfl <;> simp [tsStart, hc]
+
+/-! ### A.7 step level: which fragments reach `handleResponse` while a time synchronisation waits -/
+
+/-- a solicited FIR+FIN response from `dest` with the expected sequence number and no IIN2 error
+    reaches `handleResponse` after `processIin` (and after the CONFIRM it may have asked for:
+    `fix:` 506db51) -/
+theorem master_onFragment_reaches_handleResponse (a : Master.Acc) (src dest : Nat) (frag : List Nat)
+    (uid : Option Nat) (st : TsState) (seq fc0 dl : Nat) (r : Master.Resp)
+    (hm : a.1.mode = .waitNonRead dest (.timeSync uid st) seq fc0 dl)
+    (hp : parseResponse frag = some r)
+    (hv : validateNonRead dest seq src r = .accept)
+    (hassoc : (a.1.getAssoc dest).isSome) :
+    onFragment a src frag =
+      (match handleResponse (modAssoc
+          (if r.ctrl.con = true then Master.emit (notifyLinkActivity a src) (.tx dest [0xC0 + seq, 0])
+           else notifyLinkActivity a src) dest (·.processIin r.iin1 r.iin2)) dest
+          (.timeSync uid st) r with
+       | (a2, .error e) => .appDone a2 dest .timeSync fc0 (.error e)
+       | (a2, .ok none) => .appDone a2 dest .timeSync fc0 (.ok seq)
+       | (a2, .ok (some next)) => runSingle a2 dest next .timeSync fc0) := by
+  have h1 := notify_getAssoc' a src dest
+  rw [hassoc] at h1
+  have h2 : ((if r.ctrl.con = true then Master.emit (notifyLinkActivity a src) (.tx dest [0xC0 + seq, 0])
+           else notifyLinkActivity a src).1.getAssoc dest).isSome = true := by
+    split
+    · exact h1
+    · exact h1
+  unfold onFragment
+  simp only [hm, hp, hv]
+  generalize (if r.ctrl.con = true then Master.emit (notifyLinkActivity a src) (.tx dest [0xC0 + seq, 0])
+           else notifyLinkActivity a src) = a1 at h2 ⊢
+  cases hg : a1.1.getAssoc dest with
+  | none => rw [hg] at h2; simp at h2
+  | some x =>
+    simp only [NonReadTask.taskType]
+    generalize handleResponse _ dest (NonReadTask.timeSync uid st) r = res
+    obtain ⟨a2, e⟩ := res
+    cases e with
+    | error e => rfl
+    | ok o => cases o <;> rfl
+
+theorem master_onFragment_unrelated (a : Master.Acc) (src dest : Nat) (frag : List Nat)
+    (t : NonReadTask) (seq fc0 dl : Nat) (r : Master.Resp)
+    (hm : a.1.mode = .waitNonRead dest t seq fc0 dl)
+    (hp : parseResponse frag = some r) (hu : r.unsol = false)
+    (hne : src ≠ dest ∨ r.ctrl.seq ≠ seq) :
+    onFragment a src frag = .waiting (notifyLinkActivity a src) ∧
+    (notifyLinkActivity a src).1.mode = .waitNonRead dest t seq fc0 dl ∧
+    (notifyLinkActivity a src).2 = a.2 := by
+  refine ⟨?_, ?_, ?_⟩
+  · unfold onFragment
+    simp only [hm, hp]
+    have : validateNonRead dest seq src r = .ignore := by
+      unfold validateNonRead
+      rcases hne with h | h
+      · simp [hu, h]
+      · by_cases h2 : src = dest <;> simp [hu, h, h2]
+    simp only [this]
+  · simp [notifyLinkActivity, modAssoc, hm]
+  · simp [notifyLinkActivity, modAssoc]
+
+theorem master_onFragment_unsolicited_harmless (a : Master.Acc) (src dest : Nat) (frag : List Nat)
+    (t : NonReadTask) (seq fc0 dl : Nat) (r : Master.Resp)
+    (hm : a.1.mode = .waitNonRead dest t seq fc0 dl)
+    (hp : parseResponse frag = some r) (hu : r.unsol = true) :
+    onFragment a src frag = .waiting (doUnsolicited (notifyLinkActivity a src) src r) ∧
+    (doUnsolicited (notifyLinkActivity a src) src r).1.mode = .waitNonRead dest t seq fc0 dl ∧
+    completions (doUnsolicited (notifyLinkActivity a src) src r).2 = completions a.2 := by
+  have hf : Frame a (doUnsolicited (notifyLinkActivity a src) src r) :=
+    (frame_modAssoc a src _).trans (doUnsolicited_frame _ src r)
+  refine ⟨?_, ?_, hf.2⟩
+  · unfold onFragment
+    simp only [hm, hp]
+    have : validateNonRead dest seq src r = .unsolicited := by simp [validateNonRead, hu]
+    simp only [this]
+  · rw [hf.1]; exact hm
+
+theorem master_onFragment_rejected (a : Master.Acc) (src dest : Nat) (frag : List Nat)
+    (t : NonReadTask) (seq fc0 dl : Nat) (r : Master.Resp) (e : Master.TaskErr)
+    (hm : a.1.mode = .waitNonRead dest t seq fc0 dl)
+    (hp : parseResponse frag = some r) (hv : validateNonRead dest seq src r = .fail e) :
+    onFragment a src frag =
+      .appDone (taskOnError (notifyLinkActivity a src) dest (.nonRead t) e) dest t.taskType fc0 (.error e) := by
+  unfold onFragment
+  simp only [hm, hp, hv]
+
+/-- a solicited FIR+FIN reply with the right sequence number whose IIN2 carries NO_FUNC_CODE_SUPPORT,
+    OBJECT_UNKNOWN or PARAMETER_ERROR is a failure -/
+theorem master_rejects_iin2_error (dest seq : Nat) (r : Master.Resp)
+    (hu : r.unsol = false) (hs : r.ctrl.seq = seq) (hf : r.ctrl.fir = true) (hn : r.ctrl.fin = true)
+    (hb : r.iin2 &&& 0x07 ≠ 0) :
+    validateNonRead dest seq dest r = .fail (.rejectedIin2 r.iin1 r.iin2) := by
+  simp [validateNonRead, hu, hs, hf, hn, badIin2, hb]
+
+/-- a failing time synchronisation started by a user completes that user's promise with the error -/
+theorem timeSync_taskOnError (a : Master.Acc) (dest u : Nat) (st : TsState) (e : Master.TaskErr) :
+    taskOnError a dest (.nonRead (.timeSync (some u) st)) e = Master.complete a u (.task e) := rfl
+
+-- B ------------------------------------------------------------------------------------------
+
+theorem outstation_record_current_time_as_modelled (a : Dnp3.Acc) (seq fid : Nat) (hs : List ObjHdr)
+    (raw : List Nat) :
+    Dnp3.handleNonRead a 24 seq fid hs raw =
+      some (({ a.1 with lastRecorded := some a.1.now }, a.2),
+            some { emptySolicited seq 0 with iin2 := if raw.isEmpty then 0 else iin2ParamError }) := by
+  unfold Dnp3.handleNonRead
+  simp [objectsAllowed, emptySolicited]
+
+theorem outstation_write_abs_as_modelled (a : Dnp3.Acc) (h : ObjHdr)
+    (hg : h.group = 50) (hv : h.var = 1) (hq : h.qual = 0x07) (hc : h.a = 1) :
+    Dnp3.handleWriteHeader a h = (emitCb a (.writeTime (Dnp3.u48le h.data)), timeResultIin a.1) := by
+  unfold Dnp3.handleWriteHeader
+  simp [hg, hv, hq, hc]
+
+/-- the octets of the g52v2 count-of-one object reporting `d` ms -/
+def delayObject (d : Nat) : List Nat := [52, 2, 7, 1, d % 256, d / 256 % 256]
+
+theorem outstation_delay_measure_reports_script (a : Dnp3.Acc) (seq fid : Nat) (hs : List ObjHdr)
+    (raw : List Nat) :
+    Dnp3.handleNonRead a 23 seq fid hs raw =
+      some (({ a.1 with solBuf := writeAt a.1.solBuf 4 (delayObject a.1.script.delayMs) }, a.2),
+            some { singleResponse seq 0 10 with iin2 := if raw.isEmpty then 0 else iin2ParamError }) := by
+  unfold Dnp3.handleNonRead
+  simp [objectsAllowed, countOfOne, singleResponse, delayObject]
+
+/-- the response buffer holds exactly that object after the 4-octet header -/
+theorem writeAt_object (buf obj : List Nat) (h : 4 + obj.length ≤ buf.length) :
+    ((writeAt buf 4 obj).drop 4).take obj.length = obj := by
+  unfold writeAt
+  have h4 : (buf.take 4).length = 4 := by rw [List.length_take]; omega
+  rw [List.append_assoc, List.drop_append_of_le_length (by omega)]
+  simp
+
+/-! ### wire lemmas: what one side formats is what the other side parses -/
+
+/-- the master parses the outstation's DELAY_MEASURE reply into the single g52v2 header carrying
+    `d mod 65536` -/
+theorem delay_reply_wire (c i1 i2 d : Nat) (hu : (AppCtrl.ofNat c).uns = false) :
+    parseResponse (c :: 129 :: i1 :: i2 :: delayObject d) =
+      some ⟨AppCtrl.ofNat c, false, i1, i2, delayObject d, some [⟨52, 2, 7, 1, 0, [d % 256, d / 256 % 256]⟩]⟩ ∧
+    (∀ r, r.objects = some [⟨52, 2, 7, 1, 0, [d % 256, d / 256 % 256]⟩] →
+      singleCountHeader r = some ⟨52, 2, 7, 1, 0, [d % 256, d / 256 % 256]⟩) ∧
+    Master.u16le [d % 256, d / 256 % 256] = d % 65536 := by
+  refine ⟨?_, ?_, ?_⟩
+  · simp [parseResponse, hu, delayObject, Master.parseRespObjects, Master.respVarInfo]
+  · intro r hr; simp [singleCountHeader, hr]
+  · simp [Master.u16le]; omega
+
+/-- an empty solicited response parses to a response without objects -/
+theorem empty_reply_wire (c i1 i2 : Nat) (hu : (AppCtrl.ofNat c).uns = false) :
+    parseResponse [c, 129, i1, i2] = some ⟨AppCtrl.ofNat c, false, i1, i2, [], some []⟩ := by
+  simp [parseResponse, hu, Master.parseRespObjects]
+
+theorem request_ctrl (seq : Nat) (h : seq < 16) : AppCtrl.ofNat (0xC0 + seq) = ⟨true, true, false, false, seq⟩ := by
+  revert seq; decide
+
+/-- the outstation parses the master's WRITE of g50v1 / g50v3 into one count-of-one header whose
+    data are the six octets written -/
+theorem write_request_wire (seq v t : Nat) (hs : seq < 16) (hv : v = 1 ∨ v = 3) :
+    parseRequest (Master.requestBytes seq 2 ([0x32, v, 0x07, 0x01] ++ Master.le48 t)) =
+      .request ⟨true, true, false, false, seq⟩ 2 (.ok [⟨50, v, 0x07, 1, 0, Master.le48 t⟩])
+        ([0x32, v, 0x07, 0x01] ++ Master.le48 t) := by
+  rcases hv with rfl | rfl <;>
+    simp [parseRequest, Master.requestBytes, request_ctrl seq hs, knownFunction, Master.le48, parseObjects, varInfo]
+
+/-- … and the requests without objects -/
+theorem empty_request_wire (seq f : Nat) (hs : seq < 16) (hf : f = 23 ∨ f = 24) :
+    parseRequest (Master.requestBytes seq f []) = .request ⟨true, true, false, false, seq⟩ f (.ok []) [] := by
+  rcases hf with rfl | rfl <;>
+    simp [parseRequest, Master.requestBytes, request_ctrl seq hs, knownFunction, parseObjects]
+
+/-! ## C. composition -/
+
+/-- every reply to a time synchronisation step is handled in one of three ways -/
+theorem master_timeSync_outcomes (a : Master.Acc) (dest : Nat) (uid : Option Nat) (st : TsState)
+    (r : Master.Resp) :
+    handleResponse a dest (.timeSync uid st) r = (tsSuccess a dest uid, .ok none) ∨
+    (∃ st', handleResponse a dest (.timeSync uid st) r = (a, .ok (some (.timeSync uid st')))) ∨
+    (∃ o, o ≠ .ok ∧
+      handleResponse a dest (.timeSync uid st) r = (tsReportError a dest uid o, .error .unexpectedHeaders)) := by
+  have fin : ∀ st, ((∃ x, st = TsState.writeAbs x) ∨ (∃ t, st = TsState.writeLast t)) →
+      handleResponse a dest (.timeSync uid st) r = (tsSuccess a dest uid, .ok none) ∨
+      (∃ st', handleResponse a dest (.timeSync uid st) r = (a, .ok (some (.timeSync uid st')))) ∨
+      (∃ o, o ≠ .ok ∧
+        handleResponse a dest (.timeSync uid st) r = (tsReportError a dest uid o, .error .unexpectedHeaders)) := by
+    intro st hst
+    have h := master_final_reply_as_modelled a dest uid st r hst
+    cases hw : handleWriteReply r.raw.isEmpty (decide (r.iin1 &&& 0x10 ≠ 0)) with
+    | ok u => rw [hw] at h; exact Or.inl h
+    | error e => rw [hw] at h; exact Or.inr (Or.inr ⟨_, syncOutcome_ne_ok e, h⟩)
+  cases st with
+  | writeAbs x => exact fin _ (Or.inl ⟨x, rfl⟩)
+  | writeLast t => exact fin _ (Or.inr ⟨t, rfl⟩)
+  | recordCurrent x =>
+    unfold handleResponse
+    simp only
+    split
+    · exact Or.inr (Or.inr ⟨.task .unexpectedHeaders, by simp, rfl⟩)
+    · exact Or.inr (Or.inl ⟨_, rfl⟩)
+  | measureDelay t0 =>
+    unfold handleResponse
+    simp only
+    split
+    · exact Or.inr (Or.inr ⟨.task .unexpectedHeaders, by simp, rfl⟩)
+    · split
+      · exact Or.inr (Or.inr ⟨.task .unexpectedHeaders, by simp, rfl⟩)
+      · split
+        · exact Or.inr (Or.inr ⟨.tsBadDelay _, by simp, rfl⟩)
+        · split
+          · exact Or.inr (Or.inr ⟨.tsNoSystemTime, by simp, rfl⟩)
+          · split
+            · exact Or.inr (Or.inr ⟨.tsOverflow, by simp, rfl⟩)
+            · exact Or.inr (Or.inl ⟨_, rfl⟩)
+
+/-- only the success branch completes a promise with `Ok` -/
+theorem no_ok_unless_success (a : Master.Acc) (dest : Nat) (uid : Option Nat) (st : TsState)
+    (r : Master.Resp) (hne : handleResponse a dest (.timeSync uid st) r ≠ (tsSuccess a dest uid, .ok none))
+    (u : Nat) (hu : (u, Master.Outcome.ok) ∈ completions (handleResponse a dest (.timeSync uid st) r).1.2) :
+    (u, Master.Outcome.ok) ∈ completions a.2 := by
+  rcases master_timeSync_outcomes a dest uid st r with h | ⟨st', h⟩ | ⟨o, ho, h⟩
+  · exact absurd h hne
+  · rw [h] at hu; exact hu
+  · rw [h] at hu
+    simp only [tsReportError_outs, completions_append] at hu
+    rw [List.mem_append] at hu
+    rcases hu with hu | hu
+    · exact hu
+    · cases uid with
+      | none => simp [completions] at hu
+      | some v =>
+        have : completions [Master.MOut.complete v o] = [(v, o)] := rfl
+        rw [this] at hu
+        simp at hu
+        exact absurd hu.2.symm ho
+
+/-- C1 (LAN), handler-level timeline over the REAL model functions, for ALL master / outstation
+    accumulators, `base T0 dA T3`.  Quantified: the master accumulators at the start (`m0`) and when the
+    empty reply is handled (`m1`), the outstation accumulators when RECORD_CURRENT_TIME (`o1`, at
+    `T0 + dA`) and when the WRITE (`o3`, at `T3`) are handled; `hrec` says the record made in step (2) is
+    still there (it is only touched by RECORD_CURRENT_TIME and WRITE g50v3).  Named `_partial` because the
+    transport of the fragments between the two `handle*` calls (session dispatch, wire) is taken from
+    the wire lemmas and A.7 and not from a run of the pair model. -/
+theorem lan_timeline_partial (base T0 dA T3 : Nat) (uid : Option Nat) (dest : Nat)
+    (m0 m1 : Master.Acc) (o1 o3 : Dnp3.Acc) (seq1 fid1 seqW : Nat) (r1 : Master.Resp)
+    (hm0 : m0.1.clock = some (base + T0))
+    (ho1 : o1.1.now = T0 + dA)
+    (hr1 : r1.raw = [])
+    (ho3 : o3.1.now = T3) (hrec : o3.1.lastRecorded = some (T0 + dA)) (hT3 : T0 + dA ≤ T3)
+    (hfit : base + T0 ≤ maxTs) (hseq : seqW < 16) :
+    ∃ (st1 : TsState) (next : NonReadTask) (h : ObjHdr),
+      -- (1) the master starts: the task records its clock and sends RECORD_CURRENT_TIME without objects
+      Master.startTask m0 dest (.nonRead (.timeSync uid (.recordCurrent none))) =
+        (m0, some (.nonRead (.timeSync uid st1))) ∧
+      (NonReadTask.timeSync uid st1).function = 24 ∧ (NonReadTask.timeSync uid st1).objects = [] ∧
+      -- (2) the outstation records T0 + dA and answers with an empty response, no callback
+      Dnp3.handleNonRead o1 24 seq1 fid1 [] [] =
+        some (({ o1.1 with lastRecorded := some (T0 + dA) }, o1.2), some (emptySolicited seq1 0)) ∧
+      -- (3) on the empty reply the master continues with WRITE g50v3 carrying base + T0
+      handleResponse m1 dest (.timeSync uid st1) r1 = (m1, .ok (some next)) ∧
+      next.function = 2 ∧ next.objects = [0x32, 0x03, 0x07, 0x01] ++ Master.le48 (base + T0) ∧
+      -- (4) which the outstation parses into one header
+      parseRequest (Master.requestBytes seqW next.function next.objects) =
+        .request ⟨true, true, false, false, seqW⟩ 2 (.ok [h]) next.objects ∧
+      -- (5) the WRITE arrives at T3: the application is handed base + T0 + (T3 − (T0 + dA)) …
+      (base + T0 + (T3 - (T0 + dA)) ≤ maxTs →
+        Dnp3.handleWriteHeader o3 h =
+          (emitCb ({ o3.1 with lastRecorded := none }, o3.2) (.writeTime (base + T0 + (T3 - (T0 + dA)))),
+           timeResultIin o3.1) ∧
+        -- … while the master's clock is base + T3: the error is exactly the forward delay dA
+        base + T3 = (base + T0 + (T3 - (T0 + dA))) + dA ∧
+        lan (base + T0) dA (T3 - (T0 + dA)) = some (base + T0 + (T3 - (T0 + dA)), base + T3)) ∧
+      -- … or, if that does not fit 48 bits, nothing is written and PARAMETER_ERROR is returned
+      (base + T0 + (T3 - (T0 + dA)) > maxTs →
+        Dnp3.handleWrite o3 seqW [h] = (o3, emptySolicited seqW iin2ParamError)) := by
+  refine ⟨.recordCurrent (some (base + T0)), .timeSync uid (.writeLast (base + T0)),
+    ⟨50, 3, 0x07, 1, 0, Master.le48 (base + T0)⟩, ?_, rfl, rfl, ?_, ?_, rfl, rfl, ?_, ?_, ?_⟩
+  · simp [Master.startTask, tsStart, hm0]
+  · rw [outstation_record_current_time_as_modelled, ho1]
+    simp [emptySolicited]
+  · rw [master_record_current_reply]; simp [hr1]
+  · exact write_request_wire seqW 3 (base + T0) hseq (Or.inr rfl)
+  · intro hf
+    refine ⟨?_, by omega, ?_⟩
+    · unfold Dnp3.handleWriteHeader
+      simp only [hrec, u48_wire_round_trip _ hfit, ho3]
+      have : ¬ base + T0 + (T3 - (T0 + dA)) > 281474976710655 := by unfold maxTs at hf; omega
+      simp [this]
+    · unfold lan outstationWriteLastRecorded
+      have e2 : base + T0 + dA + (T3 - (T0 + dA)) = base + T3 := by omega
+      have : ¬ base + T0 + (T3 - (T0 + dA)) > maxTs := by omega
+      simp only [Nat.sub_zero, this, if_false, e2]
+  · intro hf
+    unfold Dnp3.handleWrite Dnp3.handleWriteHeader
+    simp only [List.foldl, hrec, u48_wire_round_trip _ hfit, ho3]
+    have : base + T0 + (T3 - (T0 + dA)) > 281474976710655 := by unfold maxTs at hf; omega
+    simp [this]
+
+/-- C1 (non-LAN), handler-level timeline: honest report `p < 65536` of the processing delay,
+    one-way delays `dA` (DELAY_MEASURE), `dB` (reply), `dC` (WRITE).  `hr2` is what the master parses
+    from the reply of step (2) (`delay_reply_wire`).  `_partial` for the same reason as the LAN one. -/
+theorem nonlan_timeline_partial (base T0 dA p dB dC : Nat) (uid : Option Nat) (dest : Nat)
+    (m0 m2 : Master.Acc) (o1 o3 : Dnp3.Acc) (seq1 fid1 seqW : Nat) (r2 : Master.Resp)
+    (hm0c : m0.1.clock.isSome) (hm0n : m0.1.now = T0)
+    (ho1 : o1.1.script.delayMs = p) (hp : p < 65536)
+    (hm2n : m2.1.now = T0 + (dA + p + dB)) (hm2c : m2.1.clock = some (base + T0 + (dA + p + dB)))
+    (hr2 : r2.objects = some [⟨52, 2, 7, 1, 0, [p % 256, p / 256 % 256]⟩])
+    (hfit : base + T0 + (dA + p + dB) + (dA + dB) / 2 ≤ maxTs) (hseq : seqW < 16) :
+    ∃ (st1 : TsState) (ts mclock : Nat) (next : NonReadTask) (h : ObjHdr),
+      -- (1) the master starts at T0: the task records the send time, DELAY_MEASURE without objects
+      Master.startTask m0 dest (.nonRead (.timeSync uid (.measureDelay none))) =
+        (m0, some (.nonRead (.timeSync uid st1))) ∧
+      (NonReadTask.timeSync uid st1).function = 23 ∧ (NonReadTask.timeSync uid st1).objects = [] ∧
+      -- (2) the outstation reports its processing delay p (honestly) in g52v2
+      Dnp3.handleNonRead o1 23 seq1 fid1 [] [] =
+        some (({ o1.1 with solBuf := writeAt o1.1.solBuf 4 (delayObject p) }, o1.2),
+              some (singleResponse seq1 0 10)) ∧
+      -- (3) the reply reaches the master dA + p + dB later; the arithmetic model gives (ts, mclock)
+      nonLan (base + T0) dA p dB dC p = .ok (ts, mclock) ∧
+      handleResponse m2 dest (.timeSync uid st1) r2 = (m2, .ok (some next)) ∧
+      next = .timeSync uid (.writeAbs (some ts)) ∧
+      -- (4) WRITE g50v1 carrying ts, as the outstation parses it
+      parseRequest (Master.requestBytes seqW next.function next.objects) =
+        .request ⟨true, true, false, false, seqW⟩ 2 (.ok [h]) next.objects ∧
+      -- (5) the application is handed ts when the master's clock is mclock = base + T0 + dA+p+dB+dC
+      Dnp3.handleWriteHeader o3 h = (emitCb o3 (.writeTime ts), timeResultIin o3.1) ∧
+      ts = base + T0 + (dA + p + dB) + (dA + dB) / 2 ∧
+      mclock = base + (T0 + dA + p + dB + dC) ∧
+      -- (6) error = ⌊(dA+dB)/2⌋ − dC, bounded by the asymmetry, zero when the delays are equal
+      (ts : Int) - mclock = ((dA + dB) / 2 : Nat) - (dC : Int) ∧
+      ((ts : Int) - mclock ≤ max ((dA : Int) - dC) ((dB : Int) - dC)) ∧
+      ((mclock : Int) - ts ≤ max ((dC : Int) - dA) ((dC : Int) - dB) + 1) ∧
+      (dA = dC → dB = dC → ts = mclock) := by
+  have hi : dA + p + dB - p = dA + dB := by omega
+  have hnl : nonLan (base + T0) dA p dB dC p =
+      .ok (base + T0 + (dA + p + dB) + (dA + dB) / 2, base + T0 + (dA + p + dB) + dC) := by
+    unfold nonLan
+    simp only [handleDelayMeasure_eq, hi]
+    have h1 : ¬ dA + p + dB < p := by omega
+    have h2 : ¬ (dA + dB) / 2 > maxTs - (base + T0 + (dA + p + dB)) := by omega
+    simp [h1, h2]
+  have hu16 : Master.u16le [p % 256, p / 256 % 256] = p := by
+    simp [Master.u16le]; omega
+  have hsc : singleCountHeader r2 = some ⟨52, 2, 7, 1, 0, [p % 256, p / 256 % 256]⟩ := by
+    simp [singleCountHeader, hr2]
+  have hts : base + T0 + (dA + p + dB) + (dA + dB) / 2 ≤ maxTs := hfit
+  refine ⟨.measureDelay (some T0), _, _, .timeSync uid (.writeAbs (some (base + T0 + (dA + p + dB) + (dA + dB) / 2))),
+    ⟨50, 1, 0x07, 1, 0, Master.le48 (base + T0 + (dA + p + dB) + (dA + dB) / 2)⟩,
+    ?_, rfl, rfl, ?_, hnl, ?_, rfl, ?_, ?_, rfl, by omega, ?_⟩
+  · simp [Master.startTask, tsStart, hm0c, hm0n]
+  · rw [outstation_delay_measure_reports_script, ho1]; simp [singleResponse]
+  · have h := master_delay_measure_as_modelled m2 dest uid T0 r2 _ hsc rfl rfl rfl
+      (by intro c hc; rw [hm2c] at hc; cases hc; omega)
+    simp only [hu16, hm2n, hm2c] at h
+    have hi2 : T0 + (dA + p + dB) - T0 = dA + p + dB := by omega
+    rw [hi2, handleDelayMeasure_eq] at h
+    have h1 : ¬ dA + p + dB < p := by omega
+    have h2 : ¬ (dA + dB) / 2 > maxTs - (base + T0 + (dA + p + dB)) := by omega
+    simp only [h1, if_false, hi, h2] at h
+    exact h
+  · exact write_request_wire seqW 1 _ hseq (Or.inl rfl)
+  · rw [outstation_write_abs_as_modelled o3 _ rfl rfl rfl rfl]
+    simp only [u48_wire_round_trip _ hts]
+  · have h3 := nonlan_error_formula _ _ _ _ _ _ _ hnl
+    have h4 := nonlan_error_bounded_by_asymmetry _ _ _ _ _ _ _ hnl
+    exact ⟨h3, h4.1, h4.2.1, h4.2.2⟩
+
+/-- PARAMETER_ERROR survives the OR with the other IIN2 bits of the response -/
+theorem paramError_survives (x : Nat) : (iin2ParamError ||| x) &&& 0x07 ≠ 0 := by
+  intro h
+  have h2 := congrArg (fun n => n.testBit 2) h
+  have e1 : Nat.testBit 4 2 = true := by decide
+  have e2 : Nat.testBit 7 2 = true := by decide
+  simp [Nat.testBit_and, Nat.testBit_or, iin2ParamError, e1, e2] at h2
+
+theorem sync_failure_conditions_reported (a : Master.Acc) (dest : Nat) (uid : Option Nat) (r : Master.Resp) :
+    -- (i) the outstation reports a processing delay exceeding the round trip
+    (∀ t0 h, singleCountHeader r = some h → h.group = 52 → h.var = 2 → h.a = 1 →
+      a.1.now - t0 < Master.u16le h.data →
+      handleResponse a dest (.timeSync uid (.measureDelay (some t0))) r =
+        (tsReportError a dest uid (.tsBadDelay (Master.u16le h.data)), .error .unexpectedHeaders)) ∧
+    -- (ii) NEED_TIME is still indicated in the reply to the WRITE
+    (∀ st, ((∃ x, st = TsState.writeAbs x) ∨ (∃ t, st = TsState.writeLast t)) →
+      r.raw.isEmpty = true → r.iin1 &&& 0x10 ≠ 0 →
+      handleResponse a dest (.timeSync uid st) r =
+        (tsReportError a dest uid .tsStillNeedsTime, .error .unexpectedHeaders)) ∧
+    -- (iii) unexpected objects in a reply that must be empty …
+    (∀ st, ((∃ x, st = TsState.writeAbs x) ∨ (∃ t, st = TsState.writeLast t) ∨ (∃ x, st = TsState.recordCurrent x)) →
+      r.raw.isEmpty = false →
+      handleResponse a dest (.timeSync uid st) r =
+        (tsReportError a dest uid (.task .unexpectedHeaders), .error .unexpectedHeaders)) ∧
+    -- … or anything but one g52v2 in the reply to DELAY_MEASURE
+    (∀ t0, (singleCountHeader r = none ∨
+        ∃ h, singleCountHeader r = some h ∧ ¬ (h.group = 52 ∧ h.var = 2 ∧ h.a = 1)) →
+      handleResponse a dest (.timeSync uid (.measureDelay t0)) r =
+        (tsReportError a dest uid (.task .unexpectedHeaders), .error .unexpectedHeaders)) ∧
+    -- (iv) the time to write does not fit 48 bits (non-LAN; for LAN see `lan_timeline`,
+    --      `lan_overflow_reported`)
+    (∀ t0 h c, singleCountHeader r = some h → h.group = 52 → h.var = 2 → h.a = 1 →
+      Master.u16le h.data ≤ a.1.now - t0 → a.1.clock = some c →
+      c + (a.1.now - t0 - Master.u16le h.data) / 2 > maxTs →
+      handleResponse a dest (.timeSync uid (.measureDelay (some t0))) r =
+        (tsReportError a dest uid .tsOverflow, .error .unexpectedHeaders)) := by
+  refine ⟨?_, ?_, ?_, ?_, ?_⟩
+  · intro t0 h hs hg hv hc hlt
+    unfold handleResponse
+    simp [hs, hg, hv, hc, hlt]
+  · intro st hst he hn
+    have h := master_final_reply_as_modelled a dest uid st r hst
+    have hd : decide (r.iin1 &&& 0x10 ≠ 0) = true := by simp [hn]
+    rw [hd, he] at h
+    exact h
+  · intro st hst he
+    rcases hst with ⟨x, rfl⟩ | ⟨t, rfl⟩ | ⟨x, rfl⟩ <;> unfold handleResponse <;> simp [he]
+  · intro t0 h
+    exact master_delay_measure_unexpected_objects a dest uid t0 r h
+  · intro t0 h c hs hg hv hc hle hk ho
+    unfold handleResponse
+    have : ¬ a.1.now - t0 < Master.u16le h.data := by omega
+    unfold maxTs at ho
+    simp [hs, hg, hv, hc, this, hk, ho]
+
+/-- a reported failure sends nothing and completes the promise (if any) with the error -/
+theorem tsReportError_sends_nothing (a : Master.Acc) (dest : Nat) (uid : Option Nat) (o : Master.Outcome) :
+    Master.txFrags (tsReportError a dest uid o).2 = Master.txFrags a.2 ∧
+    completions (tsReportError a dest uid o).2 =
+      completions a.2 ++ (match uid with | none => [] | some u => [(u, o)]) := by
+  rw [tsReportError_outs]
+  cases uid <;> simp [Master.txFrags, completions]
+
+/-- LAN overflow on the master side: the outstation's PARAMETER_ERROR reply fails the task and the
+    user's promise completes with that error; no further request is sent -/
+theorem lan_overflow_reported (a : Master.Acc) (dest u : Nat) (frag : List Nat) (st : TsState)
+    (seq fc0 dl : Nat) (r : Master.Resp) (x : Nat)
+    (hm : a.1.mode = .waitNonRead dest (.timeSync (some u) st) seq fc0 dl)
+    (hp : parseResponse frag = some r)
+    (hu : r.unsol = false) (hs : r.ctrl.seq = seq) (hf : r.ctrl.fir = true) (hn : r.ctrl.fin = true)
+    (hi : r.iin2 = iin2ParamError ||| x) :
+    onFragment a dest frag =
+      .appDone (Master.complete (notifyLinkActivity a dest) u (.task (.rejectedIin2 r.iin1 r.iin2)))
+        dest .timeSync fc0 (.error (.rejectedIin2 r.iin1 r.iin2)) := by
+  have hv := master_rejects_iin2_error dest seq r hu hs hf hn (by rw [hi]; exact paramError_survives x)
+  rw [master_onFragment_rejected a dest dest frag _ seq fc0 dl r _ hm hp hv]
+  rfl
+
+/-! ### concrete instances (every theorem above with hypotheses has one) -/
+
+/-- a master with the association 1024 whose clock reads 5000 at virtual time 180, waiting for the
+    reply (sequence number 3) to a time-synchronisation request of user promise 7 in state `st` -/
+def exMaster (st : TsState) : Master.Acc :=
+  ({ now := 180, clock := some 5000, assocs := [Master.Assoc.new 1024 {} 0], ring := [1024],
+     mode := .waitNonRead 1024 (.timeSync (some 7) st) 3 23 5100, live := 1 }, [])
+
+/-- the parsed reply `C3 81 iin1 iin2` + g52v2 reporting `d` ms -/
+def exDelayResp (iin1 iin2 d : Nat) : Master.Resp :=
+  ⟨⟨true, true, false, false, 3⟩, false, iin1, iin2, delayObject d, some [⟨52, 2, 7, 1, 0, [d % 256, d / 256 % 256]⟩]⟩
+
+/-- the parsed empty reply `C3 81 iin1 iin2` -/
+def exEmptyResp (iin1 iin2 : Nat) : Master.Resp := ⟨⟨true, true, false, false, 3⟩, false, iin1, iin2, [], some []⟩
+
+example : parseResponse ([0xC3, 129, 0, 0] ++ delayObject 20) = some (exDelayResp 0 0 20) := rfl
+example : parseResponse [0xC3, 129, 0x10, 0] = some (exEmptyResp 0x10 0) := rfl
+
+-- A.1: round trip 80 ms, 20 ms reported: WRITE 5000 + 30
+example : handleResponse (exMaster (.measureDelay (some 100))) 1024 (.timeSync (some 7) (.measureDelay (some 100)))
+      (exDelayResp 0 0 20) =
+    (exMaster (.measureDelay (some 100)), .ok (some (.timeSync (some 7) (.writeAbs (some 5030))))) :=
+  master_delay_measure_as_modelled (exMaster (.measureDelay (some 100))) 1024 (some 7) 100 (exDelayResp 0 0 20)
+    _ rfl rfl rfl rfl (by intro c h; cases h; decide)
+-- A.1, failing: 200 ms reported for a round trip of 80 ms
+example : handleResponse (exMaster (.measureDelay (some 100))) 1024 (.timeSync (some 7) (.measureDelay (some 100)))
+      (exDelayResp 0 0 200) =
+    (tsReportError (exMaster (.measureDelay (some 100))) 1024 (some 7) (.tsBadDelay 200), .error .unexpectedHeaders) :=
+  master_delay_measure_as_modelled (exMaster (.measureDelay (some 100))) 1024 (some 7) 100 (exDelayResp 0 0 200)
+    _ rfl rfl rfl rfl (by intro c h; cases h; decide)
+-- A.2: an empty reply to DELAY_MEASURE
+example := master_delay_measure_unexpected_objects (exMaster (.measureDelay (some 100))) 1024 (some 7) (some 100)
+  (exEmptyResp 0 0) (Or.inl rfl)
+-- A.3: the final reply, with and without NEED_TIME
+example : handleResponse (exMaster (.writeLast 5000)) 1024 (.timeSync (some 7) (.writeLast 5000)) (exEmptyResp 0 0) =
+    (Master.complete (exMaster (.writeLast 5000)) 7 .ok, .ok none) :=
+  master_final_reply_as_modelled _ 1024 (some 7) (.writeLast 5000) (exEmptyResp 0 0) (Or.inr ⟨5000, rfl⟩)
+example : handleResponse (exMaster (.writeLast 5000)) 1024 (.timeSync (some 7) (.writeLast 5000)) (exEmptyResp 0x10 0) =
+    (Master.complete (exMaster (.writeLast 5000)) 7 .tsStillNeedsTime, .error .unexpectedHeaders) :=
+  master_final_reply_as_modelled _ 1024 (some 7) (.writeLast 5000) (exEmptyResp 0x10 0) (Or.inr ⟨5000, rfl⟩)
+example := master_final_reply_success_iff (exMaster (.writeAbs (some 5030))) 1024 (some 7) (.writeAbs (some 5030))
+  (exEmptyResp 0 0) (Or.inl ⟨_, rfl⟩)
+example : Dnp3.u48le (Master.le48 1700000000000) = 1700000000000 := u48_wire_round_trip _ (by decide)
+example := master_start_without_clock_fails (({ now := 5 } : Master.MState), []) 1024 (some 7) (.recordCurrent none) rfl
+  (Or.inl ⟨none, rfl⟩)
+-- A.7
+example := master_onFragment_reaches_handleResponse (exMaster (.writeLast 5000)) 1024 1024 [0xC3, 129, 0, 0] (some 7)
+  (.writeLast 5000) 3 23 5100 (exEmptyResp 0 0) rfl rfl rfl rfl
+example := master_onFragment_unrelated (exMaster (.writeLast 5000)) 1024 1024 [0xC4, 129, 0, 0]
+  (.timeSync (some 7) (.writeLast 5000)) 3 23 5100 ⟨⟨true, true, false, false, 4⟩, false, 0, 0, [], some []⟩ rfl rfl rfl
+  (Or.inr (by decide))
+example := master_onFragment_unsolicited_harmless (exMaster (.writeLast 5000)) 1024 1024 [0xF4, 130, 0, 0]
+  (.timeSync (some 7) (.writeLast 5000)) 3 23 5100 ⟨⟨true, true, true, true, 4⟩, true, 0, 0, [], some []⟩ rfl rfl rfl
+example := master_onFragment_rejected (exMaster (.writeLast 5000)) 1024 1024 [0xC3, 129, 0, 4]
+  (.timeSync (some 7) (.writeLast 5000)) 3 23 5100 (exEmptyResp 0 4) (.rejectedIin2 0 4) rfl rfl rfl
+example := master_rejects_iin2_error 1024 3 (exEmptyResp 0 4) rfl rfl rfl rfl (by decide)
+example := lan_overflow_reported (exMaster (.writeLast 5000)) 1024 7 [0xC3, 129, 0, 4] (.writeLast 5000) 3 23 5100
+  (exEmptyResp 0 4) 0 rfl rfl rfl rfl rfl rfl rfl
+-- B
+example := outstation_write_abs_as_modelled ((Outstation.start {} 10).1, []) ⟨50, 1, 7, 1, 0, Master.le48 5030⟩ rfl rfl rfl rfl
+example : ((writeAt (List.replicate 2048 0) 4 (delayObject 20)).drop 4).take 6 = delayObject 20 :=
+  writeAt_object (List.replicate 2048 0) (delayObject 20) (by rw [List.length_replicate]; decide)
+example := delay_reply_wire 0xC3 0 0 20 (by decide)
+example := empty_reply_wire 0xC3 0 0 (by decide)
+example := request_ctrl 3 (by decide)
+example := write_request_wire 3 3 5000 (by decide) (Or.inr rfl)
+example := empty_request_wire 3 24 (by decide) (Or.inr rfl)
+-- C
+example := no_ok_unless_success (exMaster (.writeLast 5000)) 1024 (some 7) (.writeLast 5000) (exEmptyResp 0x10 0)
+  (by intro h; cases h)
+/-- the outstation of the pair model's start configuration at virtual time `t` -/
+def exOutstation (t : Nat) (rec : Option Nat) : Dnp3.Acc :=
+  ({ (Outstation.start {} 10).1 with now := t, lastRecorded := rec }, [])
+-- LAN: base 1000, sent at 0, forward delay 30, WRITE arrives at 120: written 1090, master clock 1120
+example := lan_timeline_partial 1000 0 30 120 (some 7) 1024
+  (({ clock := some 1000 } : Master.MState), []) (exMaster (.recordCurrent (some 1000)))
+  (exOutstation 30 none) (exOutstation 120 (some 30)) 0 0 1 (exEmptyResp 0x80 0)
+  rfl rfl rfl rfl rfl (by decide) (by decide) (by decide)
+-- non-LAN: delays 30 / 50 / 40, processing 7 ms honestly reported
+example := nonlan_timeline_partial 1000 0 30 7 50 40 (some 7) 1024
+  (({ clock := some 1000 } : Master.MState), [])
+  (({ now := 87, clock := some 1087 } : Master.MState), [])
+  ({ (Outstation.start {} 10).1 with now := 30, script := { delayMs := 7 } }, []) (exOutstation 127 none) 0 0 1
+  (exDelayResp 0x80 0 7) rfl rfl rfl (by decide) rfl rfl rfl (by decide) (by decide)
+example := (sync_failure_conditions_reported (exMaster (.measureDelay (some 100))) 1024 (some 7) (exDelayResp 0 0 200)).1
+  100 _ rfl rfl rfl rfl (by decide)
+
+end Link
+
+
+/-! ## C2. The LAN procedure over the PAIR model (both session models joined by the wire)
+
+Quantified: the master clock offset `base`, the one-way delays `a` (master → outstation until the
+WRITE is sent), `b` (outstation → master) and `c` (master → outstation for the WRITE), all positive,
+with `a + b` and `c + b` below the response time-out (5000 ms) and the written time fitting 48 bits.
+NOT quantified (hence `_partial`): the start configuration is the canonical quiet one
+(`Pair.start {} 10 {} 2048 { dis := 0, int := 0, en := 0 }`: default outstation, no automatic
+start-up tasks, no unsolicited responses), the request is user promise 7, and no unrelated traffic
+is interleaved (for that see `master_onFragment_unrelated` / `master_onFragment_unsolicited_harmless`).
+The master's clock in the pair is `Pair.masterClock base now = min (base + now) (2^48-1)`; `hfit` keeps it
+unsaturated at the instants at which it is read (`base ≤ 2^48-1` here, `base + (a+b) ≤ 2^48-1` for non-LAN). -/
+section PairLan
+open Dnp3 Dnp3.Pair Dnp3.Proofs.C18Pair
+
+/-- the complete observable trace of the scenario: RECORD_CURRENT_TIME goes out at 0 (master clock
+    `base`), reaches the outstation at `a`, the empty reply reaches the master at `a + b`, WRITE g50v3
+    carrying `base` reaches the outstation at `a + b + c`, which hands `base + (b + c)` to the
+    application, and the final reply completes promise 7 with `Ok` at `a + b + c + b` -/
+theorem lan_pair_trace_partial (base a b c : Nat) (ha : 0 < a) (hb : 0 < b) (hc : 0 < c)
+    (h1 : a + b < 5000) (h2 : c + b < 5000) (hfit : base + (b + c) ≤ TimeSync.maxTs) :
+    (Pair.run (Pair.start {} 10 {} 2048 { dis := 0, int := 0, en := 0 } (some base) a b).1
+      [.user (.nonRead (.timeSync (some 7) (.recordCurrent none))), .setDelay true c,
+       .tick a, .tick b, .tick c, .tick b]).2 =
+      [ [.m [.taskStart 1024 .timeSync 24 0, .tx 1024 [192, 24]]],
+        [],
+        [.time a, .m [], .o [], .delivered true [⟨some a, 15, .frag 1 1024 [192, 24]⟩],
+         .o [.tx 1 [192, 129, 128, 0]]],
+        [.time (a + b), .m [], .o [], .delivered false [⟨some (a + b), 17, .frag 1024 1 [192, 129, 128, 0]⟩],
+         .m [.tx 1024 ([193, 2, 50, 3, 7, 1] ++ Master.le48 base)]],
+        [.time (a + b + c), .m [], .o [],
+         .delivered true [⟨some (a + b + c), 25, .frag 1 1024 ([193, 2, 50, 3, 7, 1] ++ Master.le48 base)⟩],
+         .o [.cb (.writeTime (base + (b + c))), .tx 1 [193, 129, 128, 0]]],
+        [.time (a + b + c + b), .m [], .o [],
+         .delivered false [⟨some (a + b + c + b), 17, .frag 1024 1 [193, 129, 128, 0]⟩],
+         .m [.complete 7 .ok, .taskSuccess 1024 .timeSync 24 1, .taskStart 1024 .clearRestartBit 2 2,
+             .tx 1024 [194, 2, 80, 1, 0, 7, 7, 0]]] ] := by
+  have h := lan_pair_trace base a b c ha hb hc h1 h2 (by unfold TimeSync.maxTs at hfit; exact hfit)
+  have e : a + b + c - a = b + c := by omega
+  have h0 : mclk base 0 = base := mclk_eq base 0 (by unfold TimeSync.maxTs at hfit; omega)
+  have hs := start_eq base a b
+  unfold acfg at hs
+  rw [hs]
+  simp only [lanOps, Nat.zero_add, e, wfrag, h0] at h
+  exact h
+
+/-- C2 (LAN): exactly one time is handed to the outstation application, `T = base + (b + c)`, at
+    virtual time `a + b + c`, i.e. when the master's clock reads `base + (a + b + c) = T + a`: the
+    error is exactly the forward delay `a`; and the master reports success (promise 7 completes with
+    `Ok`, and with nothing else) -/
+theorem lan_pair_end_to_end_partial (base a b c : Nat) (ha : 0 < a) (hb : 0 < b) (hc : 0 < c)
+    (h1 : a + b < 5000) (h2 : c + b < 5000) (hfit : base + (b + c) ≤ TimeSync.maxTs) :
+    let tr := (Pair.run (Pair.start {} 10 {} 2048 { dis := 0, int := 0, en := 0 } (some base) a b).1
+      [.user (.nonRead (.timeSync (some 7) (.recordCurrent none))), .setDelay true c,
+       .tick a, .tick b, .tick c, .tick b]).2
+    writeTimes tr = [base + (b + c)] ∧
+    writeInstants tr = [(a + b + c, base + (b + c))] ∧
+    (base + (b + c)) + a = base + (a + b + c) ∧
+    completionsOf tr = [(7, .ok)] := by
+  intro tr
+  have h : tr = _ := lan_pair_trace_partial base a b c ha hb hc h1 h2 hfit
+  rw [h]
+  refine ⟨rfl, rfl, by omega, rfl⟩
+
+example : writeTimes (Pair.run (Pair.start {} 10 {} 2048 { dis := 0, int := 0, en := 0 } (some 1000) 30 50).1
+    [.user (.nonRead (.timeSync (some 7) (.recordCurrent none))), .setDelay true 40,
+     .tick 30, .tick 50, .tick 40, .tick 50]).2 = [1090] :=
+  (lan_pair_end_to_end_partial 1000 30 50 40 (by decide) (by decide) (by decide) (by decide) (by decide) (by decide)).1
+
+end PairLan
+
+
+/-! ## C2 (non-LAN) over the PAIR model
+
+Same start configuration and caveats as for the LAN procedure.  In the pair model the outstation
+answers at the instant the request arrives, so its real processing delay is 0 and the honest report
+is `r = 0`; `r` is what the scripted application reports (`Script.delayMs`, `r < 65536` so that it
+fits g52v2).  `a` = delay of DELAY_MEASURE, `b` = delay of the replies, `c` = delay of the WRITE. -/
+section PairNonLan
+open Dnp3 Dnp3.Pair Dnp3.Proofs.C18Pair
+
+/-- the complete observable trace when the reported delay does not exceed the round trip -/
+theorem nonlan_pair_trace_partial (base a b c r : Nat) (ha : 0 < a) (hb : 0 < b) (hc : 0 < c)
+    (h1 : a + b < 5000) (h2 : c + b < 5000) (hr : r ≤ a + b) (hr16 : r < 65536)
+    (hfit : base + (a + b) + (a + b - r) / 2 ≤ TimeSync.maxTs) :
+    (Pair.run (Pair.start {} 10 {} 2048 { dis := 0, int := 0, en := 0 } (some base) a b).1
+      [.script fun s => { s with delayMs := r }, .user (.nonRead (.timeSync (some 7) (.measureDelay none))),
+       .setDelay true c, .tick a, .tick b, .tick c, .tick b]).2 =
+      [ [.o []],
+        [.m [.taskStart 1024 .timeSync 23 0, .tx 1024 [192, 23]]],
+        [],
+        [.time a, .m [], .o [], .delivered true [⟨some a, 15, .frag 1 1024 [192, 23]⟩],
+         .o [.tx 1 ([192, 129, 128, 0] ++ delayObject r)]],
+        [.time (a + b), .m [], .o [],
+         .delivered false [⟨some (a + b), 23, .frag 1024 1 ([192, 129, 128, 0] ++ delayObject r)⟩],
+         .m [.tx 1024 ([193, 2, 50, 1, 7, 1] ++ Master.le48 (base + (a + b) + (a + b - r) / 2))]],
+        [.time (a + b + c), .m [], .o [],
+         .delivered true [⟨some (a + b + c), 25,
+           .frag 1 1024 ([193, 2, 50, 1, 7, 1] ++ Master.le48 (base + (a + b) + (a + b - r) / 2))⟩],
+         .o [.cb (.writeTime (base + (a + b) + (a + b - r) / 2)), .tx 1 [193, 129, 128, 0]]],
+        [.time (a + b + c + b), .m [], .o [],
+         .delivered false [⟨some (a + b + c + b), 17, .frag 1024 1 [193, 129, 128, 0]⟩],
+         .m [.complete 7 .ok, .taskSuccess 1024 .timeSync 23 1, .taskStart 1024 .clearRestartBit 2 2,
+             .tx 1024 [194, 2, 80, 1, 0, 7, 7, 0]]] ] := by
+  have h := nonlan_pair_trace base a b c r ha hb hc h1 h2 hr hr16 (by unfold TimeSync.maxTs at hfit; exact hfit)
+  have hs := start_eq base a b
+  unfold acfg at hs
+  rw [hs]
+  have hu := u48_wire_round_trip (base + (a + b) + (a + b - r) / 2) hfit
+  have hab : mclk base (a + b) = base + (a + b) := mclk_eq base (a + b) (by unfold TimeSync.maxTs at hfit; omega)
+  simp only [nonlanOps, nonlanTs, Nat.zero_add, Nat.sub_zero, wfragA, dfrag, hab, hu] at h
+  exact h
+
+/-- C2 (non-LAN), honest report: exactly one time `T = base + (a + b) + ⌊(a + b)/2⌋` is handed to the
+    application, at virtual time `a + b + c`, when the master's clock reads `base + (a + b + c)`; the
+    error is `⌊(a + b)/2⌋ − c` (as `TimeSync.nonLan` says), zero when the three delays are equal, and
+    promise 7 completes with `Ok` -/
+theorem nonlan_pair_end_to_end_partial (base a b c : Nat) (ha : 0 < a) (hb : 0 < b) (hc : 0 < c)
+    (h1 : a + b < 5000) (h2 : c + b < 5000) (hfit : base + (a + b) + (a + b) / 2 ≤ TimeSync.maxTs) :
+    let tr := (Pair.run (Pair.start {} 10 {} 2048 { dis := 0, int := 0, en := 0 } (some base) a b).1
+      [.script fun s => { s with delayMs := 0 }, .user (.nonRead (.timeSync (some 7) (.measureDelay none))),
+       .setDelay true c, .tick a, .tick b, .tick c, .tick b]).2
+    let T := base + (a + b) + (a + b) / 2
+    writeTimes tr = [T] ∧
+    writeInstants tr = [(a + b + c, T)] ∧
+    nonLan base a 0 b c 0 = .ok (T, base + (a + b + c)) ∧
+    (T : Int) - (base + (a + b + c) : Nat) = ((a + b) / 2 : Nat) - (c : Int) ∧
+    (a = c → b = c → T = base + (a + b + c)) ∧
+    completionsOf tr = [(7, .ok)] := by
+  intro tr T
+  have h : tr = _ := nonlan_pair_trace_partial base a b c 0 ha hb hc h1 h2 (by omega) (by decide)
+    (by simpa using hfit)
+  have hnl : nonLan base a 0 b c 0 = .ok (T, base + (a + b + c)) := by
+    unfold nonLan
+    simp only [handleDelayMeasure_eq, Nat.add_zero, Nat.sub_zero]
+    have h1 : ¬ a + b < 0 := by omega
+    have h2 : ¬ (a + b) / 2 > TimeSync.maxTs - (base + (a + b)) := by omega
+    simp only [h1, h2, if_false]
+    have e : base + (a + b) + c = base + (a + b + c) := by omega
+    rw [e]
+  rw [h]
+  simp only [Nat.sub_zero]
+  refine ⟨rfl, rfl, hnl, ?_, ?_, rfl⟩
+  · exact nonlan_error_formula _ _ _ _ _ _ _ hnl
+  · exact (nonlan_error_bounded_by_asymmetry _ _ _ _ _ _ _ hnl).2.2
+
+/-- C2 (non-LAN), failure: a reported processing delay exceeding the round trip `a + b` makes the
+    master complete promise 7 with `tsBadDelay r`; no time is written and the only request the master
+    sends afterwards is the clear-restart WRITE of g80v1 (no WRITE of g50) -/
+theorem nonlan_pair_bad_delay_fails_partial (base a b r : Nat) (ha : 0 < a) (hb : 0 < b)
+    (h1 : a + b < 5000) (hr : a + b < r) (hr16 : r < 65536) :
+    let tr := (Pair.run (Pair.start {} 10 {} 2048 { dis := 0, int := 0, en := 0 } (some base) a b).1
+      [.script fun s => { s with delayMs := r }, .user (.nonRead (.timeSync (some 7) (.measureDelay none))),
+       .tick a, .tick b]).2
+    tr = [ [.o []],
+        [.m [.taskStart 1024 .timeSync 23 0, .tx 1024 [192, 23]]],
+        [.time a, .m [], .o [], .delivered true [⟨some a, 15, .frag 1 1024 [192, 23]⟩],
+         .o [.tx 1 ([192, 129, 128, 0] ++ delayObject r)]],
+        [.time (a + b), .m [], .o [],
+         .delivered false [⟨some (a + b), 23, .frag 1024 1 ([192, 129, 128, 0] ++ delayObject r)⟩],
+         .m [.complete 7 (.tsBadDelay r), .taskFail 1024 .timeSync .unexpectedHeaders,
+             .taskStart 1024 .clearRestartBit 2 1, .tx 1024 [193, 2, 80, 1, 0, 7, 7, 0]]] ] ∧
+    writeTimes tr = [] ∧ completionsOf tr = [(7, .tsBadDelay r)] := by
+  intro tr
+  have h0 := nonlan_pair_bad_trace base a b r ha hb h1 hr hr16
+  have hs := start_eq base a b
+  unfold acfg at hs
+  simp only [nonlanBadOps, Nat.zero_add, dfrag] at h0
+  rw [← hs] at h0
+  have h : tr = _ := h0
+  rw [h]
+  exact ⟨rfl, rfl, rfl⟩
+
+example : writeTimes (Pair.run (Pair.start {} 10 {} 2048 { dis := 0, int := 0, en := 0 } (some 1000) 30 50).1
+    [.script fun s => { s with delayMs := 0 }, .user (.nonRead (.timeSync (some 7) (.measureDelay none))),
+     .setDelay true 40, .tick 30, .tick 50, .tick 40, .tick 50]).2 = [1120] :=
+  (nonlan_pair_end_to_end_partial 1000 30 50 40 (by decide) (by decide) (by decide) (by decide) (by decide) (by decide)).1
+example := nonlan_pair_bad_delay_fails_partial 1000 30 50 100 (by decide) (by decide) (by decide) (by decide) (by decide)
+example := nonlan_pair_trace_partial 1000 30 50 40 10 (by decide) (by decide) (by decide) (by decide) (by decide)
+  (by decide) (by decide) (by decide)
+example := lan_pair_trace_partial 1000 30 50 40 (by decide) (by decide) (by decide) (by decide) (by decide) (by decide)
+
+end PairNonLan
 
 end Dnp3.Props.C18
